@@ -17,17 +17,21 @@
   `P` = panic (empty range); `exhausted` = the stream ran out; `true`/`false` for check_in_range.
   The operators that depend on `cfg(debug_assertions)` never overflow here (proved), so there is
   no build-mode argument; the model is run with `dbg = true`.
+  The MODEL answer of the six sampling ops is computed by the DIGIT-LEVEL model
+  (`Model/RandomD.lean`: real carry chains, Knuth D for `%`, digit-level `widening_mul`, …), proved
+  in `Lemmas/RandomD.lean` to refine the value-level model `Model/Random.lean`.
 -/
 import Bnum.Drive.Util
 import Bnum.Model.Random
+import Bnum.Model.RandomD
 import Bnum.Spec.Random
 namespace Bnum.Drive.C20
 open Bnum Bnum.Drive
 
-private def showDrawM (total : Nat) : Outcome Rand.Draw → String
+private def showDrawD (c : Cfg) (total : Nat) : Outcome RandD.Draw → String
   | .panic => "P"
   | .ok none => "exhausted"
-  | .ok (some (v, rest)) => "S(" ++ toHex v ++ ")@" ++ toString (total - rest.length)
+  | .ok (some (x, rest)) => "S(" ++ showVal c x ++ ")@" ++ toString (total - rest.length)
 
 private def showDrawS (c : Cfg) : Option (Option (Int × Nat)) → String
   | none => "P"
@@ -52,27 +56,27 @@ def handle : Handler := fun c op args =>
   match op, args with
   | "sample_single", [lo, hi, bs] => do
     let lo ← parseVal c lo; let hi ← parseVal c hi; let s ← parseBytes bs
-    some (showDrawM s.length (Rand.sampleSingle sg true w n (U w lo) (U w hi) s),
+    some (showDrawD c s.length (RandD.sampleSingle sg true w n lo hi s),
           showDrawS c (specSample (Spec.Random.zoneSingle bits m) (valOf c lo) (valOf c hi) false s))
   | "sample_single_inclusive", [lo, hi, bs] => do
     let lo ← parseVal c lo; let hi ← parseVal c hi; let s ← parseBytes bs
-    some (showDrawM s.length (Rand.sampleSingleInclusive sg true w n (U w lo) (U w hi) s),
+    some (showDrawD c s.length (RandD.sampleSingleInclusive sg true w n lo hi s),
           showDrawS c (specSample (Spec.Random.zoneSingle bits m) (valOf c lo) (valOf c hi) true s))
   | "gen_range", [lo, hi, bs] => do
     let lo ← parseVal c lo; let hi ← parseVal c hi; let s ← parseBytes bs
-    some (showDrawM s.length (Rand.genRange sg true w n (U w lo) (U w hi) s),
+    some (showDrawD c s.length (RandD.genRange sg true w n lo hi s),
           showDrawS c (specSample (Spec.Random.zoneSingle bits m) (valOf c lo) (valOf c hi) false s))
   | "gen_range_inclusive", [lo, hi, bs] => do
     let lo ← parseVal c lo; let hi ← parseVal c hi; let s ← parseBytes bs
-    some (showDrawM s.length (Rand.genRangeInclusive sg true w n (U w lo) (U w hi) s),
+    some (showDrawD c s.length (RandD.genRangeInclusive sg true w n lo hi s),
           showDrawS c (specSample (Spec.Random.zoneSingle bits m) (valOf c lo) (valOf c hi) true s))
   | "uniform_new", [lo, hi, bs] => do
     let lo ← parseVal c lo; let hi ← parseVal c hi; let s ← parseBytes bs
-    some (showDrawM s.length (Rand.uniformNewSample sg true w n (U w lo) (U w hi) s),
+    some (showDrawD c s.length (RandD.uniformNewSample sg true w n lo hi s),
           showDrawS c (specSample (Spec.Random.zoneExact m) (valOf c lo) (valOf c hi) false s))
   | "uniform_new_inclusive", [lo, hi, bs] => do
     let lo ← parseVal c lo; let hi ← parseVal c hi; let s ← parseBytes bs
-    some (showDrawM s.length (Rand.uniformNewInclusiveSample sg true w n (U w lo) (U w hi) s),
+    some (showDrawD c s.length (RandD.uniformNewInclusiveSample sg true w n lo hi s),
           showDrawS c (specSample (Spec.Random.zoneExact m) (valOf c lo) (valOf c hi) true s))
   | "standard", [bs] => do
     let s ← parseBytes bs
